@@ -9,9 +9,9 @@ sys.path.insert(0, os.path.join(V, "tools"))
 from mkprops import TABLE  # noqa: E402
 
 OUTSIDE = {
-    "C01": "closed bound on the number of ticks after healing: `heal` monitor on the implementation (a closed theorem is being added, see 13.6)",
+    "C01": "disconnection by the slice-rounded reservation (known finding R6) is a hypothesis of the liveness theorem (`alive`); budget below 1200 bytes: no progress for sliced messages (refuted with witness)",
     "C02": "as C01",
-    "C03": "unreliable multiplicity bound: monitor (closed theorem being added, see 13.6)",
+    "C03": "a channel id configured both as unreliable and as reliable (accepted by the library, routes to the reliable channel): excluded by hypothesis, refuted without it",
     "C04": "unforgeability (named assumption); sequence `2^64-1` (the window's empty marker, refuted with a witness); one session per connect token",
     "C05": "the table of 2048 token entries forgets bindings (known finding N10)",
     "C06": "counters above 2^62-1 (unreachable: 2^62 packets)",
